@@ -363,20 +363,34 @@ def run_space(ck, thorough):
             cur, size = [], 0
     if cur:
         groups.append(cur)
+    tr_cases = []
     for gi, grp in enumerate(groups):
         L = list(HEADER)
         L.append('Definition cases : list (bool * Z * Z * list (list dy)) := [')
         L.append(';\n'.join('  (%s, %d, %d, %s)' % ('true' if c['periodic'] else 'false', c['nc'], c['k'], mat_lit(c['P'])) for c in grp))
         L.append('].')
         L.append("Eval vm_compute in map (fun '(per, nc, k, M) => (length M, bad_idx (if per : bool then check_per_matrix nc k M %s else check_dir_matrix nc k M %s))) cases." % (rt, rt))
+        # restriction = 1/2 * transpose of this prolongation (when rorder = iorder), entry by entry, in the kernel
+        tr = [c for c in grp if c['rorder'] == c['k'] and c['nf'] <= 32 and c['R'].ndim == 2 and c['R'].shape[0] > 0]
+        tr_cases += tr
+        L.append('Definition rcases : list (list (list dy) * list (list dy)) := [')
+        L.append(';\n'.join('  (%s, %s)' % (mat_lit(c['R']), mat_lit(c['P'])) for c in tr))
+        L.append('].')
+        L.append("Eval vm_compute in map (fun '(R, P) => check_scaled_transpose R P (Dy 1 (-1))) rcases.")
         files.append(ck.write_gen('Data_space_%d.v' % gi, '\n'.join(L) + '\n'))
     outs = run_coq_files(ck, files)
     results = []
+    tr_results = []
     for f, (rc, out) in zip(files, outs):
         if rc != 0:
             gen_fail(ck, f.split('/')[-1], out)
             return
-        results += parse_coq_value(eval_outputs(out)[0])
+        ev = eval_outputs(out)
+        results += parse_coq_value(ev[0])
+        tr_results += parse_coq_value(ev[1])
+    assert len(tr_results) == len(tr_cases)
+    for c, ok in zip(tr_cases, tr_results):
+        c['coq_transpose'] = ok
     uniq = [c for c in cases if c['dup_of'] is None]
     assert len(results) == len(uniq)
     for c, r in zip(uniq, results):
@@ -435,6 +449,11 @@ def run_space(ck, thorough):
             inj = all(c['R'][j, (2 * j) if periodic else (2 * j + 1)] == 1.0 and np.count_nonzero(c['R'][j]) == 1 for j in range(nc))
             okR = okR and inj
         ck.evaluations += 1
+        if c.get('coq_transpose') is False and okR:
+            nbad += 1
+            ck.agg.violation('kernel: check_scaled_transpose Rspace Pspace 1/2 fails although the numpy comparison passes (periodic=%s, nvars %d<-%d, order %d)'
+                             % (periodic, nf, nc, k), {'periodic': periodic, 'nvars_fine': nf, 'nvars_coarse': nc, 'iorder': k, 'rorder': ro},
+                             match={'kind': 'space-restriction', 'rorder': ro}, no_input=True)
         if not okR:
             nbad += 1
             ck.agg.violation('Rspace is not %s (periodic=%s, nvars %d<-%d, iorder %d, rorder %d)'
@@ -443,7 +462,8 @@ def run_space(ck, thorough):
                          {'call': 'mesh_to_mesh(...).Rspace', 'periodic': periodic, 'nvars_fine': nf, 'nvars_coarse': nc, 'iorder': k,
                           'rorder': ro, 'equidist_nested': nested, 'Rspace_row0': [float(x) for x in c['R'][0]] if c['R'].ndim == 2 and c['R'].shape[0] else None},
                          match={'kind': 'space-restriction', 'rorder': ro})
-    ck.obligation('check_per_row / check_dir_row on every row of %d prolongation matrices' % len(cases), nbad == 0)
+    ck.obligation('check_per_row / check_dir_row on every row of %d prolongation matrices; check_scaled_transpose on %d (Rspace, Pspace) pairs'
+                  % (len(uniq), len(tr_cases)), nbad == 0)
     ck.cov['space_worst_weight_defect'] = float(worst)
     ck.cov['space_validator_rtol'] = 2.0 ** SPACE_RTOL_EXP
     return cases
@@ -1036,7 +1056,7 @@ def run_fft(ck, thorough):
 
 
 REQUIRED = ['C11_node_transfer_sound', 'C11_node_transfer_rows_sum_one', 'C11_RP_identity', 'C11_interp_row_sound_affine',
-            'C11_space_row_sound', 'C11_per_row_sound', 'C11_per_row_constants', 'C11_dir_row_sound',
+            'C11_space_row_sound', 'C11_scaled_transpose_sound', 'C11_per_row_sound', 'C11_per_row_constants', 'C11_dir_row_sound',
             'C11_per_support_nearest', 'C11_per_support_images', 'C11_dir_support_nearest', 'C11_next_neighbors_spec',
             'C11_next_neighbors_periodic_spec']
 
